@@ -522,10 +522,12 @@ def run(ctx):
     ctx.do(c03.r3_5)
     ctx.do(c15.r15_3)
     ctx.do(c15.r15_4)
+    ctx.do(c15.r15_5)  # UID MOVE removes the UIDs it names
     ctx.do(c10.r10_4)
     ctx.do(c10.r10_4_units)
     from . import c01 as _c01
     ctx.do(_c01.r1_2)  # COPY / MOVE by message number address what the session meant
     ctx.do(c10.r10_3)  # a queued command's set is resolved again after its wait
+    ctx.do(c10.r10_2)  # a removal by UID list (MOVE, POP3 QUIT) runs under a command that excludes the readers it renumbers
     for k, v in RAISE_AFTER_EFFECT_OK.items():
         ctx.trust(f"frozen raise-after-effect exemption: {k} - {v}")
